@@ -2,7 +2,10 @@
 
 package consensus
 
-import "github.com/bbva/qed/crypto/hashing"
+import (
+	"github.com/bbva/qed/crypto/hashing"
+	"github.com/hashicorp/raft"
+)
 
 // Codec shims: the production encode/decode functions, exported for the wire-fidelity harness.
 
@@ -59,3 +62,13 @@ func VerifMetadataRoundTrip(prev, next uint64) (uint64, uint64, error) {
 	}
 	return o.PreviousVersion, o.NewVersion, nil
 }
+
+// ---- raft log store (C15)
+
+type VerifRaftLog interface {
+	raft.LogStore
+	raft.StableStore
+	Close() error
+}
+
+func VerifOpenRaftLog(path string) (VerifRaftLog, error) { return newRaftLog(path) }
